@@ -8,7 +8,7 @@
 //! This module implements a higher-parallelism, async temporary cache for database
 //! objects
 
-use super::{CachedItem, DEFAULT_CACHE_CLEAN_FREQUENCY_MS, DEFAULT_ITEM_LIFETIME_MS};
+use super::{cache_now, CachedItem, DEFAULT_CACHE_CLEAN_FREQUENCY_MS, DEFAULT_ITEM_LIFETIME_MS};
 use crate::log::{debug, info};
 use crate::storage::DbRecord;
 use crate::storage::Storable;
@@ -61,12 +61,12 @@ impl TimedCache {
 
         let do_clean = {
             // we need the {} brackets in order to release the read lock, since we _may_ acquire a write lock shortly later
-            *(self.last_clean.read().await) + self.clean_frequency < Instant::now()
+            *(self.last_clean.read().await) + self.clean_frequency < cache_now()
         };
         if do_clean {
             let mut last_clean_write = self.last_clean.write().await;
 
-            let now = Instant::now();
+            let now = cache_now();
             if let Some(memory_limit_bytes) = self.memory_limit_bytes {
                 let mut retained_size = 0;
                 let mut num_retained = 0u32;
@@ -116,7 +116,7 @@ impl TimedCache {
             }
 
             // update last clean time
-            *last_clean_write = Instant::now();
+            *last_clean_write = cache_now();
         }
     }
 
@@ -139,7 +139,7 @@ impl TimedCache {
         Self {
             azks: Arc::new(RwLock::new(None)),
             map: Arc::new(DashMap::new()),
-            last_clean: Arc::new(RwLock::new(Instant::now())),
+            last_clean: Arc::new(RwLock::new(cache_now())),
             can_clean: Arc::new(AtomicBool::new(true)),
             item_lifetime: lifetime,
             memory_limit_bytes: o_memory_limit_bytes,
@@ -181,7 +181,7 @@ impl TimedCache {
             // if we've disabled cache cleaning, we're in the middle
             // of an in-memory transaction and should ignore expiration
             // of cache items until this flag is disabled again
-            if ignore_clean || result.expiration > Instant::now() {
+            if ignore_clean || result.expiration > cache_now() {
                 return Some(result.data.clone());
             }
         }
@@ -201,7 +201,7 @@ impl TimedCache {
             *guard = Some(DbRecord::Azks(azks_ref.clone()));
         } else {
             let item = CachedItem {
-                expiration: Instant::now() + self.item_lifetime,
+                expiration: cache_now() + self.item_lifetime,
                 data: record.clone(),
             };
             self.map.insert(key, item);
@@ -219,7 +219,7 @@ impl TimedCache {
             } else {
                 let key = record.get_full_binary_id();
                 let item = CachedItem {
-                    expiration: Instant::now() + self.item_lifetime,
+                    expiration: cache_now() + self.item_lifetime,
                     data: record.clone(),
                 };
                 self.map.insert(key, item);
